@@ -13,7 +13,7 @@ CLAIM = {
     "text": ("Decides the structural clauses of C13: (R1) quantifier and polarity -- for each method the value returned by is_case_missing normalises (small lattice of (quantifier, predicate) with De Morgan for ~ / not) to "
              "'for all variables, for all positions: null' (isnull) resp. 'not finite' (isfinite, defined by np.isfinite itself so that nan, +inf and -inf all count as no data), the absent-coordinate path returns True, an unknown method raises; "
              "(R2) find_missing_cases enumerates product over the non-ignored dimensions in dataset order with a string ignore_dims treated as one name, zips locations with the same names, and the filter preserves order and emits each location at most once; "
-             "parse_into_cases enumerates cases x product(combos) in order, the later mapping overriding, and every requested location reaches the missing test (no short cut skips it). Not decided: xarray null semantics per dtype; the find -> harvest -> find loop (C05)."),
+             "parse_into_cases enumerates cases x product(combos) in order, the later mapping overriding, and every requested location reaches the missing test (no short cut skips it). (R3) Runner.run_cases binds the tuple cases reported here with the caller's fn_args; (R4) the null criterion `method` is forwarded to every in-package callee that takes one. Not decided: xarray null semantics per dtype; the find -> harvest -> find loop (C05)."),
     "note": "Trusted base: xarray .sel raises KeyError for absent labels; isnull / np.isfinite element-wise semantics; .all() reduces over all positions and to_array().all() over variables.",
     "technique": "static analysis: abstract evaluation of the reduction chain in a (quantifier, predicate) lattice per method valuation; syntactic enumeration-order and guard-shape rules",
 }
@@ -311,8 +311,44 @@ def enumeration_rule(ctx, rid):
     return rr
 
 
+def criterion_forwarding_rule(ctx, rid):
+    """The null criterion (`method`) chosen by the caller reaches every helper
+    that takes one: a helper called without it silently falls back to its own
+    default ('isnull'), so with 'isfinite' the two stages disagree about what
+    is missing."""
+    from ..util import callee_func
+    rr = ctx.rule(rid, "the null criterion `method` is forwarded to every in-package callee that has a `method` parameter", floor=2)
+    prog = ctx.prog
+    m = prog.modules[CASE]
+    n = 0
+    for f in m.all_funcs:
+        if "method" not in f.params:
+            continue
+        ctx.touch(f)
+        inner = [f] + list(f.nested.values())
+        for fn in inner:
+            for nd, c, nm in all_calls(ctx, fn):
+                cf = callee_func(ctx, fn, c)
+                if cf is None or cf.module.name.split(".")[0] != "xyzpy" or "method" not in cf.params:
+                    continue
+                n += 1
+                a = arg(c, cf.positional.index("method") if "method" in cf.positional else None, "method")
+                if a is not None and norm(a) == "method":
+                    rr.ok("%s -> %s(method=method)" % (f.name, cf.name), "%s|%s|%s" % (f.name, cf.name, c.lineno))
+                elif a is None:
+                    rr.bad(ctx.finding(rid, fn, c, "%s calls `%s` without its `method`: the callee falls back to %s while the caller was asked for another criterion -- with method='isfinite' cells holding only +-inf are treated as data by this stage" % (
+                        f.name, norm(c)[:50], norm(cf.defaults().get("method")) if cf.defaults().get("method") is not None else "its default"), construct="criterion-not-forwarded %s->%s" % (f.name, cf.name)), "%s forwards method" % f.name)
+                else:
+                    rr.bad(ctx.finding(rid, fn, c, "%s passes method=%s instead of its own `method`" % (f.name, norm(a)), construct="criterion-replaced %s->%s" % (f.name, cf.name)), "%s forwards method" % f.name)
+    need(n >= 2, "anchor lost: calls forwarding the null criterion (%d)" % n)
+    return rr
+
+
 def run(ctx):
     quantifier_rule(ctx, "C13.R1")
+    criterion_forwarding_rule(ctx, "C13.R4")
+    from . import sweep as _sw
+    _sw.case_binding_rule(ctx, "C13.R3")
     enumeration_rule(ctx, "C13.R2")
     prog = ctx.prog
     sl = [prog.need_func(CASE + "." + n) for n in ("is_case_missing", "find_missing_cases", "parse_into_cases")]
